@@ -545,6 +545,11 @@ func main() {
 				return err
 			}
 		}
+		for _, rp := range append(collisionCases(), funcOpCases()...) {
+			if err := run(rp); err != nil {
+				return err
+			}
+		}
 		base := int64(1552307695000000000)
 		// ---- where: structured stream
 		for i := 0; i < c.N(520); i++ {
